@@ -198,3 +198,16 @@ type hC02JSONLD struct{ jsonld.JSONLD }
 
 func (hC02JSONLD) DocumentLoader() ld.DocumentLoader { return nil }
 
+
+// ---------------------------------------------------------------------------------------------
+// Random values. crypto.GenerateNonce (256 random bits, base64url) is replaced by distinct, concrete values: real
+// nonces are unique with overwhelming probability, and symbolic random bytes that pass through base64 tables and
+// then serve as store keys make every later solver query very slow.
+//verif:stub github.com/nuts-foundation/nuts-node/crypto.GenerateNonce => hC02GenerateNonce
+
+var hC02NonceCount int
+
+func hC02GenerateNonce() string {
+	hC02NonceCount++
+	return "random-" + string(rune('A'+hC02NonceCount/26)) + string(rune('a'+hC02NonceCount%26))
+}
